@@ -168,11 +168,20 @@ def _stm_layout(chk):
 
     ip2 = Interp(overrides={"_compute_stm": fake_stm})
     per = sp.Symbol("period")
-    M = ip2.call_function(RTBP, "_compute_monodromy", [dyn, x0, per])
-    ok = M == sp.Symbol("M") and cap2.get("args", [None])[0] is dyn and len(cap2["args"]) >= 3 and cap2["args"][2] == per \
-        and S(cap2["kw"].get("forward", 1)) == 1 and (len(cap2["args"]) < 5 or S(cap2["args"][4]) == 1)
-    chk.check(ok, "C03.a-layout", f"{RTBP}::_compute_monodromy",
-              "monodromy is not Phi(T) of the forward variational flow over exactly one period",
+    M, err = None, None
+    try:
+        M = ip2.call_function(RTBP, "_compute_monodromy", [dyn, x0, per])
+    except OutsideFragment as exc:   # what follows the propagation is outside the fragment; the propagation itself is judged below
+        err = str(exc)
+    args, kw = cap2.get("args", []), cap2.get("kw", {})
+    span = args[2] if len(args) > 2 else kw.get("tf")
+    ok = bool(args) and args[0] is dyn and span == per and S(kw.get("forward", 1)) == 1 and (len(args) < 5 or S(args[4]) == 1)
+    chk.check(ok, "C03.a-layout", f"{RTBP}::_compute_monodromy[span]",
+              f"monodromy is not computed from the forward variational flow over exactly one period from x0 (time span handed to _compute_stm: {span}); "
+              "symmetry shortcuts hold only for initial states on the symmetry plane",
+              sample="_compute_stm(dynsys, x0, period), forward")
+    chk.check(M == sp.Symbol("M"), "C03.a-layout", f"{RTBP}::_compute_monodromy",
+              f"monodromy is not Phi(T) returned unchanged: {M if err is None else err}",
               sample="_compute_monodromy = _compute_stm(dynsys, x0, period)[2]")
 
 
@@ -327,3 +336,7 @@ def _wiring(chk):
             chk.check(ok, "C03.d", f"{modname}::{q}", "orbit var_dynsys is not delegated to the system's variational system",
                       sample=ri.norm_stmt(rets[0]) if rets else "")
     chk.floor("var_dynsys properties", hit, 1)
+    # the cached monodromy / stability of an orbit are dropped when its period or state changes (rule C20.e on the orbit service)
+    from . import c20
+    from .common import Relabel
+    c20._e_invalidation(Relabel(chk, {"C20.e": "C03.d-invalidation"}), c20._sites(), only_classes={"_OrbitDynamicsService"})
